@@ -121,48 +121,53 @@ class Calibrator:
       )
       if cache_output:
         self._cached_output.append(signature_output)
+      # Only the main subgraph of the invoked signature holds fresh tensor
+      # contents, so read them from (and collect statistics for) that subgraph.
+      subgraph_index = tfl_interpreter_utils.get_signature_main_subgraph_index(
+          self._tfl_interpreter, signature_key
+      )
       self._tensor_content_map = (
           tfl_interpreter_utils.get_tensor_name_to_content_map(
-              self._tfl_interpreter
+              self._tfl_interpreter, subgraph_index
           )
       )
       # Step2: go through each op to update quantization statistic values.
-      for subgraph in self._flatbuffer_model.subgraphs:
-        graph_info = qtyping.GraphInfo(
-            subgraph.tensors, self._flatbuffer_model.buffers
-        )
-        # Add input/output operators to the subgraph.
-        subgraph.operators += (
-            tfl_flatbuffer_utils.get_subgraph_input_output_operators(subgraph)
-        )
-        for op in subgraph.operators:
-          if isinstance(op, qtyping.IOOperator):
-            op_key = op.op_key
-          else:
-            op_code = op_codes[op.opcodeIndex].builtinCode
-            if op_code not in tfl_flatbuffer_utils.TFL_OP_CODE_TO_NAME:
-              continue
-            op_key = tfl_flatbuffer_utils.TFL_OP_CODE_TO_NAME[op_code]
-          # Step2.1: query the quantization_recipe to get op quantization
-          # settings.
-          op_scope = self._get_op_scope(op, subgraph.tensors)
-          algorithm_name, _ = model_recipe_manager.get_quantization_configs(
-              op_key, op_scope
-          )
-          if algorithm_name == algorithm_manager.AlgorithmName.NO_QUANTIZE:
+      subgraph = self._flatbuffer_model.subgraphs[subgraph_index]
+      graph_info = qtyping.GraphInfo(
+          subgraph.tensors, self._flatbuffer_model.buffers
+      )
+      # Add input/output operators to the subgraph.
+      subgraph.operators += (
+          tfl_flatbuffer_utils.get_subgraph_input_output_operators(subgraph)
+      )
+      for op in subgraph.operators:
+        if isinstance(op, qtyping.IOOperator):
+          op_key = op.op_key
+        else:
+          op_code = op_codes[op.opcodeIndex].builtinCode
+          if op_code not in tfl_flatbuffer_utils.TFL_OP_CODE_TO_NAME:
             continue
-          # Step2.2: query algorithm_manager to get/call the related calibration
-          # function.
-          calibrate_func = algorithm_manager.get_quantization_func(
-              algorithm_name, op_key, qtyping.QuantizeMode.CALIBRATE
-          )
-          op_qsvs = calibrate_func(op, graph_info, self._tensor_content_map)
-          # Step3: Update tensor qsvs with the new values. Ignore the tensor
-          # names that are already updated in this round of calibration.
-          op_updated_tensor_name = self._update_qsvs(
-              op_qsvs, updated_tensor_names, qsv_update_func
-          )
-          updated_tensor_names.update(op_updated_tensor_name)
+          op_key = tfl_flatbuffer_utils.TFL_OP_CODE_TO_NAME[op_code]
+        # Step2.1: query the quantization_recipe to get op quantization
+        # settings.
+        op_scope = self._get_op_scope(op, subgraph.tensors)
+        algorithm_name, _ = model_recipe_manager.get_quantization_configs(
+            op_key, op_scope
+        )
+        if algorithm_name == algorithm_manager.AlgorithmName.NO_QUANTIZE:
+          continue
+        # Step2.2: query algorithm_manager to get/call the related calibration
+        # function.
+        calibrate_func = algorithm_manager.get_quantization_func(
+            algorithm_name, op_key, qtyping.QuantizeMode.CALIBRATE
+        )
+        op_qsvs = calibrate_func(op, graph_info, self._tensor_content_map)
+        # Step3: Update tensor qsvs with the new values. Ignore the tensor
+        # names that are already updated in this round of calibration.
+        op_updated_tensor_name = self._update_qsvs(
+            op_qsvs, updated_tensor_names, qsv_update_func
+        )
+        updated_tensor_names.update(op_updated_tensor_name)
       # Reset interpreter after one round of calibration.
       self._tfl_interpreter.reset_all_variables()
 
